@@ -723,6 +723,12 @@ def dep_accepts_key(cur, earlier, m, vers):
         for k, v in enumerate(vers):
             if (spec >> k) & 1 and f(v) is not bool((e >> k) & 1):
                 return classify_req(ref_parse_req(cur), v, f(v))      # the matcher itself is wrong: the req family's class
+        # (classifier only) the answers are those cargo_parse gives for an earlier requirement, also on its unspecified points
+        mc = sum(1 << k for k, v in enumerate(vers) if f(v))
+        for old in earlier:
+            g = impl_accepts(old)
+            if m != mc and m == sum(1 << k for k, v in enumerate(vers) if g(v)):
+                return K_STALE
     except Exception:  # noqa
         pass
     return 'C20:dep:accepts-version-differs-from-cargo-parse'
